@@ -232,6 +232,7 @@ func (m *Manager) getActiveEndpoint() (*activeEnpoint, error) {
 			} else {
 				// Bootstrap the active endpoint by calling a first test.
 				if err := m.testLocked(context.Background()); err != nil {
+					m.mu.Unlock()
 					return nil, err
 				}
 				ae = m.activeEndpoint
